@@ -3,6 +3,8 @@ package main
 import (
 	"fmt"
 	"strings"
+
+	"github.com/semihalev/twig"
 )
 
 // C12 — macros bind arguments positionally with defaults, alike however they are reached.
@@ -19,7 +21,7 @@ func runC12(e *Env) error {
 	params := []string{"p", "q", "r", "s"}
 	defaultsPool := []string{"'dq'", "7", "true", "'d' ~ 'x'"}
 	defaultOut := []string{"dq", "7", "true", "dx"}
-	runSig := func(arity int, defMask int, argc int, placement int) error {
+	runSig := func(arity int, defMask int, argc int, placement int, mn string) error {
 		var sig []string
 		for i := 0; i < arity; i++ {
 			if defMask&(1<<i) != 0 {
@@ -34,7 +36,7 @@ func runC12(e *Env) error {
 			body.WriteString("[{{ " + params[i] + " }}]")
 		}
 		body.WriteString("g={{ g }};{{ sib('z') }}{% set leak = 'LEAK' %}{% set g = 'changed' %})")
-		lib := "{% macro m(" + strings.Join(sig, ", ") + ") %}" + body.String() + "{% endmacro %}{% macro sib(x) %}S{{ x }}{% endmacro %}"
+		lib := "{% macro " + mn + "(" + strings.Join(sig, ", ") + ") %}" + body.String() + "{% endmacro %}{% macro sib(x) %}S{{ x }}{% endmacro %}"
 		args := make([]string, argc)
 		argOut := make([]string, argc)
 		for i := range args {
@@ -77,11 +79,11 @@ func runC12(e *Env) error {
 			return inner
 		}
 		routes := map[string]string{
-			"local":      lib + wrap(call("m")) + after,
-			"self":       lib + wrap(call("_self.m")) + after,
-			"import":     "{% import 'lib' as L %}" + wrap(call("L.m")) + after,
-			"from":       "{% from 'lib' import m %}" + wrap(call("m")) + after,
-			"from-alias": "{% from 'lib' import m as mm %}" + wrap(call("mm")) + after,
+			"local":      lib + wrap(call(mn)) + after,
+			"self":       lib + wrap(call("_self."+mn)) + after,
+			"import":     "{% import 'lib' as L %}" + wrap(call("L."+mn)) + after,
+			"from":       "{% from 'lib' import " + mn + " %}" + wrap(call(mn)) + after,
+			"from-alias": "{% from 'lib' import " + mn + " as mm %}" + wrap(call("mm")) + after,
 		}
 		if placement == 3 {
 			// inside another macro the module variable L is not visible by name lookup? it is: macros read the caller's variables
@@ -94,10 +96,10 @@ func runC12(e *Env) error {
 			if err != nil {
 				return err
 			}
-			r.Seen(fmt.Sprintf("%d/%d/%d/%d/%s/%v", arity, defMask, argc, placement, route, args), arity >= 1)
+			r.Seen(fmt.Sprintf("%s/%d/%d/%d/%d/%s/%v", mn, arity, defMask, argc, placement, route, args), arity >= 1)
 			r.Hit("route:" + route)
 			if im.Class != "" || im.Out != wantAll {
-				if r.Violate(Violation{Key: "macro-binding-or-route", What: fmt.Sprintf("macro m(%s) called with %d args via %s (placement %d): got %q (%s), expected %q", strings.Join(sig, ", "), argc, route, placement, truncate(im.Out, 160), im.Class, wantAll),
+				if r.Violate(Violation{Key: "macro-binding-or-route", What: fmt.Sprintf("macro %s(%s) called with %d args via %s (placement %d): got %q (%s), expected %q", mn, strings.Join(sig, ", "), argc, route, placement, truncate(im.Out, 160), im.Class, wantAll),
 					Broken: "theorem C12_binding / C12_routes_agree / C12_shadow_and_isolation no longer describes the code (implementation-only oracle: independent binding spec, route agreement)",
 					Replay: map[string]any{"kind": "render", "templates": tpls, "main": "main", "ctx": map[string]any{"g": "G"}, "want": wantAll, "got": im.Out, "class": im.Class, "msg": im.Msg}}) {
 					return nil
@@ -110,7 +112,7 @@ func runC12(e *Env) error {
 	for arity := 0; arity <= 3 && !r.Full(); arity++ {
 		for mask := 0; mask < (1 << arity); mask++ {
 			for argc := 0; argc <= arity+1; argc++ {
-				if err := runSig(arity, mask, argc, 0); err != nil {
+				if err := runSig(arity, mask, argc, 0, "m"); err != nil {
 					return err
 				}
 			}
@@ -119,8 +121,49 @@ func runC12(e *Env) error {
 	n := e.N(150, 20000)
 	for i := 0; i < n && !r.Full(); i++ {
 		arity := rg.Intn(5)
-		if err := runSig(arity, rg.Intn(1<<arity), rg.Intn(arity+3), rg.Intn(4)); err != nil {
+		// a macro may carry the name of a built-in function or filter: the macro is what the template defined
+		mn := pick(rg, []string{"m", "m", "range", "max", "min", "length", "date", "merge", "cycle", "upper", "block", "include"})
+		if err := runSig(arity, rg.Intn(1<<arity), rg.Intn(arity+3), rg.Intn(4), mn); err != nil {
 			return err
+		}
+	}
+	// the library is registered again with other defaults and another body: every route follows it
+	{
+		lib1 := "{% macro field(name, type = 'text', value) %}<input {{ name }}/{{ type }}/{{ value }}>{% endmacro %}"
+		lib2 := "{% macro field(name, type = 'search', value = 'none') %}<field {{ name }}|{{ type }}|{{ value }}>{% endmacro %}"
+		pages := map[string]string{
+			"import":     "{% import 'forms' as f %}{{ f.field('u') }}{{ f.field('u', 'number', 'x', 'extra') }}",
+			"from":       "{% from 'forms' import field %}{{ field('u') }}{{ field('u', 'number', 'x', 'extra') }}",
+			"from-alias": "{% from 'forms' import field as ff %}{{ ff('u') }}{% for i in [1, 2] %}{{ ff(i) }}{% endfor %}",
+			"in-loop":    "{% for i in [1, 2] %}{% import 'forms' as f %}{{ f.field(i) }}{% endfor %}",
+			"in-include": "{% include 'part' %}{% include 'part' %}",
+			"in-macro":   "{% macro wrap(x) %}{% import 'forms' as f %}{{ f.field(x) }}{% endmacro %}{{ wrap(1) }}{{ _self.wrap(2) }}",
+		}
+		for _, name := range sortedKeys(pages) {
+			page := pages[name]
+			extra := map[string]string{"part": "{% import 'forms' as f %}{{ f.field('p') }}"}
+			ref := runImpl(&Case{Templates: map[string]string{"main": page, "forms": lib2, "part": extra["part"]}, Main: "main", Ctx: map[string]any{}, FailAt: -1})
+			res := guarded(func() (string, error) {
+				eng := twig.New()
+				for _, kv := range [][2]string{{"forms", lib1}, {"part", extra["part"]}, {"main", page}} {
+					if err := eng.RegisterString(kv[0], kv[1]); err != nil {
+						return "", err
+					}
+				}
+				if _, err := eng.Render("main", map[string]interface{}{}); err != nil {
+					return "", err
+				}
+				if err := eng.RegisterString("forms", lib2); err != nil {
+					return "", err
+				}
+				return eng.Render("main", map[string]interface{}{})
+			})
+			r.Seen("reregister:"+name, true)
+			if res.Class != "" || ref.Class != "" || res.Out != ref.Out {
+				r.Violate(Violation{Key: "macro-library-reregistered", What: fmt.Sprintf("route %s: after the macro library is registered again the page renders %q (%s), a fresh engine renders %q", name, res.Out, res.Class, ref.Out),
+					Broken: "theorem C12_routes_agree (implementation-only oracle: an import reads the library that is registered now)",
+					Replay: map[string]any{"kind": "render", "templates": map[string]string{"main": page, "forms": lib2, "part": extra["part"]}, "main": "main", "first_library": lib1, "got": res.Out, "want": ref.Out, "class": res.Class}})
+			}
 		}
 	}
 	// a library with ONE macro that calls itself, reached through every route
